@@ -34,7 +34,18 @@ Inductive case :=
 | CHiveFind (base requester : list N) (m : find_node_req) (obs : outcome) (npeers : Z)
 | CHivePeers (base : list N) (ping_ok : bool) (ps : list hive_peer) (obs : outcome) (added : Z)
 | CCIResp (st : ci_state) (m : ci_resp) (obs : outcome)
-| CCIReq (self : list N) (m : ci_req) (obs : outcome).
+| CCIReq (self : list N) (m : ci_req) (obs : outcome)
+| CMcHandshake (gids : list (list N)) (obs : outcome)
+| CMcNotify (status : Z) (gids : list (list N)) (obs : outcome)
+| CMcFindGroup (m : find_group_req) (joined : bool) (obs : outcome)
+| CMcMulticast (self origin gid : list N) (obs : outcome)
+| CMcMessage (joined subscribed : bool) (m : group_msg) (second_frame : bool) (obs : outcome)
+| CRtReq (self dest : list N) (paths : list rt_path) (nu : N) (obs : outcome)
+| CRtResp (self dest : list N) (paths : list rt_path) (nu : N) (obs : outcome)
+| CRtUnderlay (in_book : bool) (dest : list N) (obs : outcome)
+| CRtConnChain (self : list N) (is_conn : bool) (dest srcmode : list N) (obs : outcome)
+| CRtFindUnderlay (sig_ok : bool) (obs : outcome)
+| CRetrieval (self : list N) (has_chunk full root_known : bool) (m : req_chunk) (deliv : option (list N * bool)) (obs : outcome).
 
 (** the node of the harness: overlay address and peer tables (harness/cmd/c37/net.go);
     [flip_at base po salt]: bit [po] flipped, last byte xor salt *)
@@ -77,6 +88,17 @@ Definition model_out (c : case) : outcome :=
   | CHivePeers base ping ps _ _ => res_outcome (hive_peers MaxPO base ping (Some ps))
   | CCIResp st m _ => chunkinfo_resp true st true (Some m)
   | CCIReq self m _ => chunkinfo_req self true (Some m)
+  | CMcHandshake gids _ => mc_handshake MaxPO [] [] (Some gids)
+  | CMcNotify st gids _ => mc_notify MaxPO [] [] (Some (st, gids))
+  | CMcFindGroup m _ _ => mc_find_group Consts.multicast_maxTTL false (Some m)   (* the harness groups have no members *)
+  | CMcMulticast self o g _ => mc_multicast self o g (Some tt)
+  | CMcMessage j sb m sf _ => mc_message true j sb (Some m) sf
+  | CRtReq self d ps _ _ => rt_req (Z.to_nat Consts.routetab_MaxTTL) self (Some (d, ps))
+  | CRtResp self d ps _ _ => rt_resp (Z.to_nat Consts.routetab_MaxTTL) self (Some (d, ps))
+  | CRtUnderlay ib d _ => rt_underlay ib (Some d)
+  | CRtConnChain self ic d sm _ => rt_connchain self ic (Some (d, sm))
+  | CRtFindUnderlay ok _ => rt_find_underlay ok (Some tt)
+  | CRetrieval self h f k m d _ => retrieval_handler self h f k (Some m) d
   end.
 (** second observable (reply / added-peer counts) *)
 Definition model_aux (c : case) : Z :=
@@ -100,6 +122,9 @@ Definition obs_out (c : case) : outcome :=
   | CTrCheque _ _ _ _ obs | CTrInitIn _ _ _ _ obs | CTrInitOut _ _ _ _ obs => obs
   | CPingIn _ obs _ | CPingOut _ obs _ | CHiveFind _ _ _ obs _ | CHivePeers _ _ _ obs _ => obs
   | CCIResp _ _ obs | CCIReq _ _ obs => obs
+  | CMcHandshake _ obs | CMcNotify _ _ obs | CMcFindGroup _ _ obs | CMcMulticast _ _ _ obs | CMcMessage _ _ _ _ obs => obs
+  | CRtReq _ _ _ _ obs | CRtResp _ _ _ _ obs | CRtUnderlay _ _ obs | CRtConnChain _ _ _ _ obs | CRtFindUnderlay _ obs => obs
+  | CRetrieval _ _ _ _ _ _ obs => obs
   end.
 Definition check_case (c : case) : bool := outcome_eqb (model_out c) (obs_out c) && (model_aux c =? obs_aux c)%Z.
 Definition explain_case (c : case) := (model_out c, obs_out c, model_aux c, obs_aux c).
